@@ -69,12 +69,26 @@ func NewVestWorld(vts []VType) *VestWorld {
 	return v
 }
 
+// maxNowNs bounds every explored block time (T0 + 60 years, the property's "sane" horizon; it also
+// keeps unix nanoseconds far from the int64 overflow in 2262, which once wrapped a history's clock
+// back to 1684 and produced a spurious panic).
+var maxNowNs = T0.UnixNano() + 60*yearNs
+
 func (v *VestWorld) Advance(dt int64) {
+	if v.NowNs+dt > maxNowNs {
+		dt = maxNowNs - v.NowNs
+		if dt < 0 {
+			dt = 0
+		}
+	}
 	v.NowNs += dt
 	v.Ctx = v.Ctx.WithBlockTime(nsTime(v.NowNs))
 }
 
 func (v *VestWorld) SetNow(ns int64) {
+	if ns > maxNowNs {
+		ns = maxNowNs
+	}
 	v.NowNs = ns
 	v.Ctx = v.Ctx.WithBlockTime(nsTime(v.NowNs))
 }
